@@ -74,17 +74,17 @@ def match_tree(eroots, proots):
     errs = []
     mapping = []
 
-    def rec(es, ps, where):
+    def rec(es, ps, where, parent):
         pairs, missing, extra = match_children(es, ps)
         for m in missing:
-            errs.append(("missing", "%s: expected node '%s' is not printed" % (where, m.name)))
+            errs.append(("missing", "%s: expected node '%s' is not printed" % (where, m.name), parent))
         for x in extra:
-            errs.append(("extra", "%s: printed node '%s' is not expected (unselected, duplicated or misplaced)" % (where, x.name)))
+            errs.append(("extra", "%s: printed node '%s' is not expected (unselected, duplicated or misplaced)" % (where, x.name), parent))
         for e, p in pairs:
             mapping.append((e, p))
-            rec(e.children, p.children, where + "::" + e.name)
+            rec(e.children, p.children, where + "::" + e.name, e)
 
-    rec(eroots, proots, "")
+    rec(eroots, proots, "", None)
     return errs, mapping
 
 
@@ -185,9 +185,12 @@ def judge(sp, cfg, res, want=None):
     for e in tree_parse.check_wellformed(proots):
         add("C20", "malformed_glyphs", e)
     errs, mapping = match_tree(eroots, proots)
-    for code, msg in errs:
+    for code, msg, parent in errs:
         add("C20", "tree_" + code, msg)
         add("C13", "shown_" + code, msg)
+        if parent is not None and getattr(parent, "is_args_parent", False):
+            # the rows below a benchmark with args are its argument cases: each must be displayed under its argument's label
+            add("C17", "arg_row_label_" + code, msg)
     pmap = {id(e): p for e, p in mapping}
 
     # header + table shape
